@@ -617,12 +617,42 @@ func TestVerifH5(t *testing.T) {
 			for i := 0; i < 10; i++ { // the queue holds 10 of the 14 attempts; a nil conn consumes one and fails the cast
 				_, _ = a.AcceptTCPWithConn(nil)
 			}
+			// the accept deadline is sticky and releases every blocked Accept
+			_ = a.SetDeadline(time.Now().Add(time.Second))
+			acc := make(chan error, 2)
+			for i := 0; i < 2; i++ {
+				go func() {
+					_, err := a.AcceptTCPWithConn(nil)
+					acc <- err
+				}()
+			}
+			time.Sleep(2 * time.Second)
+			synctest.Wait()
+			if len(acc) != 2 {
+				vt.Alarm("accept-deadline-not-sticky", "two Accept calls were blocked when the accept deadline passed: %d returned", len(acc))
+				_ = a.SetDeadline(time.Now())
+				synctest.Wait()
+			}
+			third := make(chan error, 1)
+			go func() { _, err := a.AcceptTCPWithConn(nil); third <- err }()
+			synctest.Wait()
+			select {
+			case <-third:
+			default:
+				vt.Alarm("accept-deadline-not-sticky", "an Accept after the accept deadline had passed blocks instead of timing out")
+				_ = a.SetDeadline(time.Now())
+				synctest.Wait()
+			}
+			_ = a.SetDeadline(time.Time{})
 			released := make(chan error, 1)
 			go func() {
 				_, err := a.AcceptTCPWithConn(nil)
 				released <- err
 			}()
 			synctest.Wait()
+			// a connection attempt is queued when the allocation is closed: a closed listener fails every Accept
+			qm, _ := stun.Build(stun.TransactionID, stun.NewType(stun.MethodConnectionAttempt, stun.ClassIndication),
+				proto.PeerAddress{IP: net.IPv4(10, 0, 0, 9), Port: 9100}, proto.ConnectionID(777))
 			_ = a.Close()
 			synctest.Wait()
 			select {
@@ -631,6 +661,19 @@ func TestVerifH5(t *testing.T) {
 				vt.Alarm("accept-blocked-after-close", "an Accept blocked on the TCP allocation is still blocked after Close returned")
 				_ = a.SetDeadline(time.Now()) // release it so that the bubble can end
 				synctest.Wait()
+			}
+			for i := 0; i < 8; i++ {
+				a.HandleConnectionAttempt(&net.TCPAddr{IP: net.IPv4(10, 0, 0, 9), Port: 9100 + i}, proto.ConnectionID(777+i))
+			}
+			_ = qm
+			okAfterClose := 0
+			for i := 0; i < 8; i++ {
+				if _, err := a.AcceptTCPWithConn(nil); err == nil || !strings.Contains(err.Error(), "closed") {
+					okAfterClose++
+				}
+			}
+			if okAfterClose > 0 {
+				vt.Alarm("accept-blocked-after-close", "%d of 8 Accept calls on the CLOSED TCP allocation consumed a queued connection attempt instead of failing with the closed error", okAfterClose)
 			}
 		}
 		w.c.Close()
@@ -704,6 +747,91 @@ func TestVerifH5(t *testing.T) {
 		})
 		vt.Flush()
 	}
+	// over a stream the TURN server is whoever is at the other end of the connection: its address need not be the one the
+	// client resolved from TURNServerAddr (another record of the server's name, a forwarder) - relayed data must still arrive
+	synctest.Test(t, func(t *testing.T) {
+		vt.OpSync("trace stream-other-record")
+		n := newSimNet()
+		sl, lerr := n.listenTCP(net.ParseIP("10.0.0.1").To4(), 3478, true)
+		if lerr != nil {
+			vt.Alarm("h5-setup", "stream listen: %v", lerr)
+			vt.Obs("ok")
+			return
+		}
+		defer sl.Close() //nolint:errcheck
+		cl, sv, err := n.dial(&net.TCPAddr{IP: net.ParseIP("10.0.0.2").To4(), Port: 5001}, &net.TCPAddr{IP: net.ParseIP("10.0.0.1").To4(), Port: 3478}, "c", "s")
+		if err != nil {
+			vt.Alarm("h5-setup", "stream dial: %v", err)
+			vt.Obs("ok")
+			return
+		}
+		go func() { // scripted server: 401, then Allocate success followed by a Data indication from a peer
+			sc := NewSTUNConn(sv)
+			buf := make([]byte, 4096)
+			for {
+				k, _, rerr := sc.ReadFrom(buf)
+				if rerr != nil {
+					return
+				}
+				m := &stun.Message{Raw: append([]byte{}, buf[:k]...)}
+				if m.Decode() != nil || m.Type.Class != stun.ClassRequest {
+					continue
+				}
+				tid := stun.NewTransactionIDSetter(m.TransactionID)
+				switch {
+				case m.Type.Method == stun.MethodAllocate && !m.Contains(stun.AttrMessageIntegrity):
+					r, _ := stun.Build(tid, stun.NewType(stun.MethodAllocate, stun.ClassErrorResponse), &stun.ErrorCodeAttribute{Code: stun.CodeUnauthorized},
+						stun.NewNonce("nonce0"), stun.NewRealm("pion.ly"))
+					_, _ = sv.Write(r.Raw)
+				case m.Type.Method == stun.MethodAllocate:
+					r, _ := stun.Build(tid, stun.NewType(stun.MethodAllocate, stun.ClassSuccessResponse), &proto.RelayedAddress{IP: net.IPv4(10, 0, 0, 1), Port: 50000},
+						&proto.Lifetime{Duration: 600 * time.Second}, &stun.XORMappedAddress{IP: net.IPv4(10, 0, 0, 2), Port: 5001})
+					_, _ = sv.Write(r.Raw)
+				case m.Type.Method == stun.MethodCreatePermission:
+					r, _ := stun.Build(tid, stun.NewType(stun.MethodCreatePermission, stun.ClassSuccessResponse))
+					_, _ = sv.Write(r.Raw)
+					d, _ := stun.Build(stun.TransactionID, stun.NewType(stun.MethodData, stun.ClassIndication),
+						proto.PeerAddress{IP: net.IPv4(10, 0, 0, 9), Port: 9000}, proto.Data("relayed over the stream"))
+					_, _ = sv.Write(d.Raw)
+				case m.Type.Method == stun.MethodChannelBind:
+					r, _ := stun.Build(tid, stun.NewType(stun.MethodChannelBind, stun.ClassSuccessResponse))
+					_, _ = sv.Write(r.Raw)
+				case m.Type.Method == stun.MethodRefresh:
+					r, _ := stun.Build(tid, stun.NewType(stun.MethodRefresh, stun.ClassSuccessResponse), &proto.Lifetime{Duration: 600 * time.Second})
+					_, _ = sv.Write(r.Raw)
+				}
+			}
+		}()
+		lf := logging.NewDefaultLoggerFactory()
+		lf.DefaultLogLevel = logging.LogLevelDisabled
+		// the name "turn.example" has two records, 10.0.0.77 and 10.0.0.1: the client resolved the first, the application dialled the second
+		c, cerr := NewClient(&ClientConfig{STUNServerAddr: "10.0.0.77:3478", TURNServerAddr: "10.0.0.77:3478", Conn: NewSTUNConn(cl), LoggerFactory: lf,
+			Username: "alice", Password: "pw", Realm: "pion.ly"})
+		if cerr != nil || c.Listen() != nil {
+			vt.Alarm("h5-setup", "client over a stream (other record): %v", cerr)
+			vt.Obs("ok")
+			return
+		}
+		relay, aerr := c.Allocate()
+		if aerr != nil {
+			vt.Alarm("h5-setup", "Allocate over a stream (other record): %v", aerr)
+		} else {
+			_, _ = relay.WriteTo([]byte("hi"), &net.UDPAddr{IP: net.IPv4(10, 0, 0, 9), Port: 9000}) // CreatePermission: the server answers and relays
+			_ = relay.SetReadDeadline(time.Now().Add(5 * time.Second))
+			buf := make([]byte, 256)
+			k, from, rerr := relay.ReadFrom(buf)
+			if rerr != nil || string(buf[:k]) != "relayed over the stream" {
+				vt.Alarm("stream-other-record", "the TURN server relayed a datagram over the stream connection, ReadFrom gave %q from %v err=%v", buf[:k], from, rerr)
+			}
+			_ = relay.Close()
+		}
+		c.Close()
+		_ = cl.Close()
+		_ = sv.Close()
+		synctest.Wait()
+		vt.Obs("ok")
+	})
+	vt.Flush()
 	// read deadlines (net.PacketConn): once the deadline has passed EVERY ReadFrom fails with a timeout until the
 	// deadline is moved - not only the call that was blocked when it expired
 	synctest.Test(t, func(t *testing.T) {
@@ -789,7 +917,17 @@ func TestVerifH5(t *testing.T) {
 				break
 			}
 		}
-		_ = w.conn.SetReadDeadline(time.Time{})
+		// a closed socket reports the close, also when its read deadline has passed
+		_ = w.conn.SetReadDeadline(time.Now().Add(-time.Second))
+		_ = w.conn.Close()
+		synctest.Wait()
+		{
+			buf := make([]byte, 64)
+			_, _, err := w.conn.ReadFrom(buf)
+			if err == nil || !strings.Contains(err.Error(), "closed") {
+				vt.Alarm("read-deadline-not-sticky", "ReadFrom on a CLOSED socket whose read deadline has passed returned %v, want the closed error", err)
+			}
+		}
 		vt.Stat("deadline.scenarios")
 		w.finish()
 	})
